@@ -3,6 +3,6 @@
 # property to /tmp/allrun.log: "Cxx seed=<n> <last non-KNOWN-FINDING line>" (empty = exit 0 without VIOLATION).
 cd /verif
 tier=${2:-quick}
-run() { p=$1; out=$(VERIF_SEED=${2:-0} ./check $p --tier $tier 2>/tmp/err_$p.txt | grep -v "^KNOWN-FINDING" | grep -E "VIOLATION|Traceback|Error" | tail -1); echo "$p seed=${2:-0} tier=$tier rc=${PIPESTATUS[0]} $out" >> /tmp/allrun.log; }
+run() { p=$1; VERIF_SEED=${2:-0} ./check $p --tier $tier >/tmp/out_$p.txt 2>/tmp/err_$p.txt; rc=$?; out=$(grep -E "^VIOLATION" /tmp/out_$p.txt | tail -1); echo "$p seed=${2:-0} tier=$tier rc=$rc $out" >> /tmp/allrun.log; }
 for grp in "C01 C02 C03 C04 C05" "C06 C07 C08 C09 C10" "C11 C12 C13 C14 C15" "C16 C17 C18 C19 C20"; do for p in $grp; do run $p $1 & done; wait; done
 echo "ALLRUNDONE seed=$1 tier=$tier" >> /tmp/allrun.log
